@@ -258,18 +258,44 @@ def point_t(ctx):
     calc = [c for earlier in fn.body[:fn.body.index(lp)] for c in ast.walk(earlier) if isinstance(c, ast.Call) and attr_chain(c.func) == ["self", "_calc_lengths"]]
     ctx.ob("R15.2", "Shape.point[uses the cached fractions]", bool(calc), "", fn.lineno, "fractions are computed on demand when absent")
     # the fractions are rounded quotients: their running sum can end just below a position just below 1.  When no interval
-    # claims the position the answer is the END of the last segment - the local parameter the result uses must be 1 then.
-    posargs = {a.id for r in rets for a in r.value.args if isinstance(a, ast.Name)}
-    ctx.need(len(posargs) == 1, "R15.2", "Shape.point: local parameter variable not found")
-    pv = list(posargs)[0]
+    # claims the position the answer is the END of the last segment: follow the path "loop ran out" (loop else, then the
+    # statements after the loop) and look at the local parameter handed to .point() on it.
+    from ..flow import split_tuple_assign as _sta2
 
-    def is_one(v):
-        return isinstance(v, ast.Constant) and v.value == 1 and not isinstance(v.value, bool)
+    env = {}
+    for x in fn.body[:fn.body.index(lp)]:
+        if isinstance(x, ast.Assign):
+            for tg, v in _sta2(x):
+                if isinstance(tg, ast.Name):
+                    env[tg.id] = v
+    verdict = None  # True: end of the last segment; False: something else; None: not decided
 
-    in_else = any(isinstance(x, ast.Assign) and isinstance(x.targets[0], ast.Name) and x.targets[0].id == pv and is_one(x.value) for x in lp.orelse)
-    before = [x for x in fn.body[:fn.body.index(lp)] if isinstance(x, ast.Assign) and isinstance(x.targets[0], ast.Name) and x.targets[0].id == pv]
-    init_one = bool(before) and is_one(before[-1].value)
-    ctx.ob("R15.2", "Shape.point[no interval claims t: end of the last segment]", in_else or init_one, "loop else sets %s = 1: %s; initialised to 1: %s" % (pv, in_else, init_one), lp.lineno,
+    def value_of(n, depth=0):
+        while isinstance(n, ast.Name) and n.id in env and depth < 8:
+            n, depth = env[n.id], depth + 1
+        return n
+
+    for x in list(lp.orelse) + fn.body[fn.body.index(lp) + 1:]:
+        if isinstance(x, ast.Assign):
+            for tg, v in _sta2(x):
+                if isinstance(tg, ast.Name):
+                    env[tg.id] = value_of(v) if isinstance(v, ast.Name) else v
+            continue
+        if isinstance(x, ast.Return) and x.value is not None:
+            cands = []
+            if isinstance(x.value, ast.Call) and isinstance(x.value.func, ast.Attribute) and x.value.func.attr == "point" and x.value.args:
+                cands = [x.value.args[0]]
+            elif isinstance(x.value, ast.Tuple):
+                cands = list(x.value.elts)
+            vals = [value_of(c) for c in cands]
+            nums = [v.value for v in vals if isinstance(v, ast.Constant) and isinstance(v.value, (int, float)) and not isinstance(v.value, bool)]
+            if nums:
+                verdict = all(v == 1 for v in nums)
+            break
+        if isinstance(x, (ast.If, ast.For, ast.While, ast.Try)):
+            break
+    ctx.need(verdict is not None, "R15.2", "Shape.point: what is returned when the loop runs out was not interpreted")
+    ctx.ob("R15.2", "Shape.point[no interval claims t: end of the last segment]", verdict, "local parameter on the ran-out path is %s" % ("1" if verdict else "not 1"), lp.lineno,
            "for t = 0.9999999999999999 the loop can run out (the rounded fractions sum to less); with the local parameter left at 0 the START of the last segment is returned")
 
 
